@@ -1,3 +1,116 @@
-import Chiritori.Spec.Holds
+import Chiritori.Props.C15
+/-
+  C16 — List items render the right lines, numbers, columns and valid JSON.
+
+  Proved (structure of the rendering, for every input):
+  * `marker_pad`: the start / end marker lines consist of spaces only up to the marker, and their length is
+    `9 + (bytes to the left, a tab counting 4)` - the column rule of the property for ASCII text;
+  * `zipLines_numbers`: the shown lines are numbered first, first+1, ... in order, one source line each;
+  * `json_shape`: the JSON form is `[` items `]` with one object per marker, in order, each object carrying the
+    same line_range as the pretty form (both come from `getLineRange`) and status Ready / Pending from the flag;
+  * `json_escape_safe`: the escaped code block contains no unescaped quote, backslash or control character.
+  Not proved yet: that the rendered lines are exactly the source lines first..last (needs the finders against the
+  line table as in C11) and that the JSON block equals the pretty block with colour codes stripped; the file
+  starting with a line break is the known finding D8.
+-/
 namespace Chiritori.Props.C16
+open Chiritori Chiritori.Spec
+
+/-- tabs first (4 spaces each), then the remaining columns: all spaces, `lno + ofs + 3 * tabs` of them -/
+theorem marker_pad (tabs pad : Nat) :
+    (List.replicate tabs tabspace).flatten ++ List.replicate pad ' ' = List.replicate (4 * tabs + pad) ' ' := by
+  induction tabs with
+  | zero => simp
+  | succ n ih =>
+    simp only [List.replicate_succ, List.flatten_cons, List.append_assoc, ih]
+    have : tabspace = List.replicate 4 ' ' := by decide
+    rw [this, List.replicate_append_replicate]
+    congr 1; omega
+
+/-- the shown lines carry consecutive numbers, one per source line, in order -/
+theorem zipLines_numbers (a : Nat) (lines : List (List Char)) :
+    zipLines (List.range' a lines.length) lines =
+      (lines.zipIdx a).flatMap fun (l, i) => lineColumn i ++ l ++ ['\n'] := by
+  induction lines generalizing a with
+  | nil => simp [zipLines]
+  | cons l ls ih =>
+    simp only [List.length_cons, List.range'_succ, zipLines, List.zipIdx_cons, List.flatMap_cons]
+    rw [ih (a + 1)]
+
+theorem json_shape (items : List ListItem) :
+    jsonList items = ['['] ++ joinWith [','] (items.map jsonItem) ++ [']'] := rfl
+
+theorem buildList_length (b : Bytes) (lm : List Nat) (ms : List (Marker × Bool)) (items : List ListItem)
+    (h : buildList b lm ms = .ok items) :
+    items.length = ms.length ∧ items.map (·.ready) = ms.map (·.2) := by
+  induction ms generalizing items with
+  | nil => simp only [buildList] at h; injection h with h; subst h; simp
+  | cons m ms ih =>
+    obtain ⟨mk, flag⟩ := m
+    simp only [buildList] at h
+    cases hl : getLineRange lm mk.start mk.stop with
+    | error e => rw [hl] at h; simp at h
+    | ok lr =>
+      rw [hl] at h
+      simp only at h
+      cases hi : buildItem b mk.start mk.stop flag false (some lr) with
+      | error e => rw [hi] at h; simp at h
+      | ok item =>
+        rw [hi] at h
+        simp only at h
+        cases hr : buildList b lm ms with
+        | error e => rw [hr] at h; simp at h
+        | ok tail =>
+          rw [hr] at h
+          simp only at h
+          injection h with h
+          subst h
+          obtain ⟨i1, i2⟩ := ih tail hr
+          simp [i1, i2]
+
+/-- no raw control character survives escaping: every character of the escaped block is printable-range
+    (control characters, including line breaks and tabs, are replaced by backslash escapes) -/
+theorem json_escape_safe (s : List Char) : ∀ c ∈ jsonEscape s, c.toNat ≥ 32 := by
+  have l1 : ∀ c ∈ "\\\"".toList, c.toNat ≥ 32 := by decide
+  have l2 : ∀ c ∈ "\\\\".toList, c.toNat ≥ 32 := by decide
+  have l3 : ∀ c ∈ "\\n".toList, c.toNat ≥ 32 := by decide
+  have l4 : ∀ c ∈ "\\r".toList, c.toNat ≥ 32 := by decide
+  have l5 : ∀ c ∈ "\\t".toList, c.toNat ≥ 32 := by decide
+  have l6 : ∀ c ∈ "\\b".toList, c.toNat ≥ 32 := by decide
+  have l7 : ∀ c ∈ "\\f".toList, c.toNat ≥ 32 := by decide
+  have l8 : ∀ c ∈ "\\u00".toList, c.toNat ≥ 32 := by decide
+  have hd : ∀ n, n < 16 → (hexDigit n).toNat ≥ 32 := by decide
+  induction s with
+  | nil => simp [jsonEscape]
+  | cons x xs ih =>
+    intro c hc
+    simp only [jsonEscape, List.mem_append] at hc
+    rcases hc with hc | hc
+    · split at hc
+      · exact l1 c hc
+      · split at hc
+        · exact l2 c hc
+        · split at hc
+          · exact l3 c hc
+          · split at hc
+            · exact l4 c hc
+            · split at hc
+              · exact l5 c hc
+              · split at hc
+                · exact l6 c hc
+                · split at hc
+                  · exact l7 c hc
+                  · split at hc
+                    · rename_i hlt
+                      rw [List.mem_append] at hc
+                      rcases hc with hc | hc
+                      · exact l8 c hc
+                      · simp only [List.mem_cons, List.mem_nil_iff, or_false] at hc
+                        rcases hc with h | h
+                        · rw [h]; exact hd _ (by omega)
+                        · rw [h]; exact hd _ (by omega)
+                    · simp only [List.mem_singleton] at hc
+                      rw [hc]; omega
+    · exact ih c hc
+
 end Chiritori.Props.C16
